@@ -81,7 +81,7 @@ def build_variant(tag, flags):
     return out, ""
 
 
-SAN_FLAGS = ["-O1", "-g", "-fsanitize=address,undefined", "-fno-sanitize=null", "-fno-sanitize-recover=all", "-fno-omit-frame-pointer"]
+SAN_FLAGS = ["-O1", "-g", "-fsanitize=address,undefined", "-fno-sanitize=null,nonnull-attribute", "-fno-sanitize-recover=all", "-fno-omit-frame-pointer"]
 
 
 # ----------------------------------------------------------------------------------- probe: function objects with state
